@@ -51,6 +51,10 @@ def confirm(d):
 
 
 def detect(patch, pids, tier="quick"):
+    import fcntl
+    lk = open("/tmp/zv-dev.lock", "w")          # development-time only: keeps interactive runs off /repo while a patch is applied
+    fcntl.flock(lk, fcntl.LOCK_EX)
+    os.environ.pop("ZV_DEV_LOCK", None)
     rc, o = sh(["git", "-C", "/repo", "status", "--porcelain", "--untracked-files=no"])
     if o.strip():
         sys.exit("/repo has local modifications; refusing")
